@@ -8,4 +8,5 @@ CONSTANTS
   MaxHalf = 2
 INVARIANT Correct
 INVARIANT SymOk
+INVARIANT BagAgrees
 PROPERTY Terminates
